@@ -556,6 +556,107 @@ def cookie_facts(src, msrc):
     return out
 
 
+def auth_facts(src, msrc):
+    """AUTH generation/verification (RFC 7296 section 2.15) and the order of the checks in the IKE_AUTH handlers."""
+    out = {}
+    want_octets = 'data_to_be_signed = message_data + nonce + self.my_crypto.prf.prf(sk_p, payload_id.to_bytes())'
+    for name in ('_generate_auth_payload', '_verify_auth_payload'):
+        fn = src.func(f'IkeSa.{name}')
+        first = _stmts(fn)[0]
+        if ast.unparse(first) != want_octets:
+            src.fail(first, f'{name}: the signed octets are no longer message | nonce | prf(SK_p, ID payload body)')
+    out['octets_order'] = ['O_MSG', 'O_NONCE', 'O_PRF_ID']
+    fn = src.func('IkeSa._generate_psk_auth_payload')
+    t = [ast.unparse(x) for x in _stmts(fn)]
+    if t != ["keypad = self.my_crypto.prf.prf(psk, b'Key Pad for IKEv2')",
+             'return PayloadAUTH(PayloadAUTH.Method.PSK, self.my_crypto.prf.prf(keypad, data_to_be_signed))']:
+        src.fail(fn, f'_generate_psk_auth_payload changed: {t}')
+    out['keypad'] = list(b'Key Pad for IKEv2')
+    fn = src.func('IkeSa._verify_auth_payload')
+    sel = _stmts(fn)[1]
+    want = """if payload_auth.method == PayloadAUTH.Method.PSK and self.configuration.peer_auth.psk:
+    if self._generate_psk_auth_payload(self.configuration.peer_auth.psk, data_to_be_signed) != payload_auth:
+        raise AuthenticationFailed('PSK authentication failed')
+elif payload_auth.method == PayloadAUTH.Method.RSA and self.configuration.peer_auth.pubkey:
+    if not self._verify_rsa_auth_payload(payload_auth.auth_data, data_to_be_signed):
+        raise AuthenticationFailed('RSA authentication failed')
+else:
+    raise AuthenticationFailed('Authentication method not supported')"""
+    if ast.unparse(sel) != want or len(_stmts(fn)) != 2:
+        src.fail(sel, '_verify_auth_payload: method / credential dispatch changed')
+    eq = msrc.func('PayloadAUTH.__eq__')
+    if ast.unparse(_stmts(eq)[0]) != 'return (self.method, self.auth_data) == (other.method, other.auth_data)':
+        msrc.fail(eq, 'PayloadAUTH.__eq__ changed')
+    fn = src.func('IkeSa._verify_rsa_auth_payload')
+    t = [ast.unparse(x) for x in _stmts(fn)]
+    if t != ['if not self.configuration.peer_auth.pubkey:\n    return False',
+             'return self.configuration.peer_auth.pubkey.verify(authdata, data_to_be_signed)']:
+        src.fail(fn, '_verify_rsa_auth_payload changed')
+    meth = dict(msrc.enum('PayloadAUTH.Method'))
+    out['PSK'], out['RSA'] = meth['PSK'], meth['RSA']
+    # responder: state check, payload look-ups, ID type, ID data, AUTH over (init request, responder nonce, IDi, peer SK_p)
+    # -- all before the CHILD_SA negotiation (which installs) and before ESTABLISHED
+    fn = src.func('IkeSa.process_ike_auth_request')
+    t = [ast.unparse(x) for x in _stmts(fn)]
+
+    def order(frags, where):
+        pos = []
+        for fr in frags:
+            idx = next((i for i, line in enumerate(t) if fr in line), None)
+            if idx is None:
+                src.fail(fn, f'{where}: statement not found: {fr}')
+            pos.append(idx)
+        if pos != sorted(pos) or len(set(pos)) != len(pos):
+            src.fail(fn, f'{where}: statement order changed')
+    order(['self._check_in_states(request, [IkeSa.State.INIT_RES_SENT])',
+           'request_payload_idi = request.get_payload(Payload.Type.IDi, True)',
+           'request_payload_auth = request.get_payload(Payload.Type.AUTH, True)',
+           'if request_payload_idi.id_type != self.configuration.peer_auth.id.id_type:',
+           'if request_payload_idi.id_data != self.configuration.peer_auth.id.id_data:',
+           'self._verify_auth_payload(request_payload_auth, self.ike_sa_init_req_data, '
+           'ike_sa_init_res.get_payload(Payload.Type.NONCE).nonce, request_payload_idi, self.peer_crypto.sk_p)',
+           'response_payloads = self._process_create_child_sa_negotiation_req(request)',
+           'self._generate_auth_payload(self.ike_sa_init_res_data, '
+           'ike_sa_init_req.get_payload(Payload.Type.NONCE).nonce, response_payload_idr, self.my_crypto.sk_p)',
+           'self.state = IkeSa.State.ESTABLISHED'], 'process_ike_auth_request')
+    for i, line in enumerate(t):
+        if line.startswith('if request_payload_idi.id_') and 'raise AuthenticationFailed(' not in line:
+            src.fail(fn, 'identity mismatch must raise AuthenticationFailed')
+    fn = src.func('IkeSa.process_ike_auth_response')
+    t = [ast.unparse(x) for x in _stmts(fn)]
+    order(['self._check_in_states(response, [IkeSa.State.AUTH_REQ_SENT])',
+           'self.abort_on_error_notifies(response, encrypted=True',
+           'response_payload_idr = response.get_payload(Payload.Type.IDr, True)',
+           'response_payload_auth = response.get_payload(Payload.Type.AUTH, True)',
+           'if response_payload_idr.id_type != self.configuration.peer_auth.id.id_type:',
+           'if response_payload_idr.id_data != self.configuration.peer_auth.id.id_data:',
+           'self._verify_auth_payload(response_payload_auth, self.ike_sa_init_res_data, '
+           'ike_sa_init_req.get_payload(Payload.Type.NONCE).nonce, response_payload_idr, self.peer_crypto.sk_p)',
+           'self._process_create_child_sa_negotiation_res(response)',
+           'self.state = IkeSa.State.ESTABLISHED'], 'process_ike_auth_response')
+    # the only assignments of ESTABLISHED outside the two handlers concern states that already were established
+    # which octets are retained
+    sites = {}
+    for f in src.cls('IkeSa').body:
+        if isinstance(f, ast.FunctionDef):
+            for n in ast.walk(f):
+                if isinstance(n, ast.Assign) and ast.unparse(n.targets[0]) in ('self.ike_sa_init_req_data',
+                                                                                'self.ike_sa_init_res_data'):
+                    sites.setdefault(f.name, []).append((ast.unparse(n.targets[0]), ast.unparse(n.value)))
+    want_sites = {
+        '__init__': [('self.ike_sa_init_req_data', 'None'), ('self.ike_sa_init_res_data', 'None')],
+        'process_ike_sa_init_request': [('self.ike_sa_init_req_data', 'request.to_bytes()'),
+                                        ('self.ike_sa_init_res_data', 'response.to_bytes()')],
+        'generate_ike_sa_init_request': [('self.ike_sa_init_req_data', 'self.request.to_bytes()')],
+        'process_ike_sa_init_response': [('self.ike_sa_init_req_data', 'self.request.to_bytes()'),
+                                         ('self.ike_sa_init_req_data', 'self.request.to_bytes()'),
+                                         ('self.ike_sa_init_res_data', 'response.to_bytes()')],
+    }
+    if {k: sorted(v) for k, v in sites.items()} != {k: sorted(v) for k, v in want_sites.items()}:
+        raise TranslateError(f'ikesa.py: the places where the IKE_SA_INIT octets are retained changed: {sites}')
+    return out
+
+
 def translate(ctx=None):
     src = pyast.Src(os.path.join(core.REPO, 'ikesa.py'))
     msrc = pyast.Src(os.path.join(core.REPO, 'message.py'))
@@ -569,6 +670,7 @@ def translate(ctx=None):
     trig = trigger_facts(src)
     loopf = loop_facts(csrc)
     cook = cookie_facts(src, msrc)
+    auth = auth_facts(src, msrc)
     adm = admission_facts(src)
     ctl = controller_facts(csrc, src)
     exd = dict(exch)
@@ -626,6 +728,12 @@ def translate(ctx=None):
     L.append('\n(* cookie check of _process_ike_sa_negotiation_request (it precedes every negotiation step) *)')
     L.append(f'Definition cookie_reject (ncookies : Z) (first_equal : bool) : bool := {cook["cookie_reject"]}.')
     L.append(f'Definition N_COOKIE : Z := {cook["COOKIE"]}.')
+    L.append('\n(* AUTH (RFC 7296 2.15): order of the signed octets, key pad, method numbers *)')
+    L.append('Inductive octet_part := O_MSG | O_NONCE | O_PRF_ID.')
+    L.append('Definition octets_order : list octet_part := [' + '; '.join(auth['octets_order']) + '].')
+    L.append('Definition KEYPAD : list N := [' + '; '.join(str(b) for b in auth['keypad']) + ']%N.')
+    L.append(f'Definition AUTH_PSK : Z := {auth["PSK"]}.')
+    L.append(f'Definition AUTH_RSA : Z := {auth["RSA"]}.')
     L.append('\n(* admission: (function, kind, states) *)')
     L.append('Inductive adm_kind := Admit | Assert.')
     L.append('Definition admissions : list (nat * adm_kind * list Z) := [')
